@@ -1,1 +1,204 @@
+// Contracts for crates/jxl-jbr/src/lib.rs (child module of the crate root: sees JpegBitstreamHeader,
+// AppMarker, ... and their private fields).
+//
+// JPEG side (ITU-T T.81 B.2.4.6 APPn: marker 0xFFEn, then a 2-byte length Lp that counts itself, then
+// Lp - 2 bytes). The reconstruction header stores per APPn marker `length` = 1 + Lp (the marker's second byte
+// + the segment; reconstruct.rs:698 writes Lp = length - 1) and a type: 0 = bytes kept verbatim in the
+// data stream, 1 = ICC chunk ("ICC_PROFILE\0" + seq + count + payload, marker 0xE2), 2 = Exif
+// ("Exif\0\0" + payload, 0xE1), 3 = XMP ("http://ns.adobe.com/xap/1.0/\0" + payload, 0xE1). Hence the payload
+// taken from the ICC / Exif / xml boxes is   length - 1 - 2 - 12 - 2 = length - 17   (ICC),
+// length - 1 - 2 - 6 = length - 9 (Exif), length - 1 - 2 - 29 = length - 32 (XMP).
+//
+// What the parser admits (AppMarker::parse, lib.rs:300-305; proved by `app_marker_parse_contract`):
+//   ty = U32(0, 1, 2 + u(1), 4 + u(2))  in 0..=7,   length = u(16) + 1  in 1..=65536, independent of ty.
+// Nothing relates length to ty, and ty 4..=7 is accepted.
 use super::*;
+
+fn header_with(app_markers: Vec<AppMarker>, com_lengths: Vec<u32>, intermarker_lengths: Vec<u32>, tail_data_length: u32) -> JpegBitstreamHeader {
+    JpegBitstreamHeader {
+        is_gray: false,
+        markers: Vec::new(),
+        app_markers,
+        com_lengths,
+        quant_tables: Vec::new(),
+        components: Vec::new(),
+        huffman_codes: Vec::new(),
+        scan_info: Vec::new(),
+        restart_interval: 0,
+        scan_more_info: Vec::new(),
+        intermarker_lengths,
+        tail_data_length,
+        padding_bits: None,
+    }
+}
+
+/// u(n) of 18181-1 at bit position `at` of a little-endian word
+fn u(w: u64, at: usize, n: usize) -> u32 {
+    ((w >> at) & ((1u64 << n) - 1)) as u32
+}
+
+/// spec of the AppMarker bundle on the bit view `w` of `nbits` bits: Some((ty, length, bits used))
+fn spec_app_marker(w: u64, nbits: usize) -> Option<(u32, u32, usize)> {
+    if nbits < 2 {
+        return None;
+    }
+    let (off, n) = [(0u32, 0usize), (1, 0), (2, 1), (4, 2)][u(w, 0, 2) as usize];
+    if nbits < 2 + n + 16 {
+        return None;
+    }
+    Some((off + u(w, 2, n), u(w, 2 + n, 16) + 1, 2 + n + 16))
+}
+
+// ------------------------------------------------------------------------------------------------
+// AppMarker::parse: exactly which (ty, length) the parser admits
+// ------------------------------------------------------------------------------------------------
+#[kani::proof]
+#[kani::unwind(9)]
+fn app_marker_parse_contract() {
+    let data: [u8; 3] = kani::any();
+    let len: usize = kani::any();
+    kani::assume(len <= 3);
+    let w = u32::from_le_bytes([data[0], data[1], data[2], 0]) as u64;
+    let mut bs = Bitstream::new(&data[..len]);
+    let r = AppMarker::parse(&mut bs, ());
+    match (&r, spec_app_marker(w, len * 8)) {
+        (Ok(am), Some((ty, length, used))) => {
+            assert!(am.ty == ty, "[C17] ty = U32(0, 1, 2 + u(1), 4 + u(2))");
+            assert!(am.length == length, "[C17] length = u(16) + 1");
+            assert!(bs.num_read_bits() == used, "[C17] exactly the bundle's bits are consumed");
+            assert!(am.ty <= 7 && am.length >= 1 && am.length <= 65536, "[C17,C01] range of what the parser returns");
+        }
+        (Err(e), None) => assert!(e.unexpected_eof(), "[C01,C17] the only failure is running out of input"),
+        _ => assert!(false, "[C17,C01] parse succeeds exactly when the bundle is complete"),
+    }
+    // every (ty, length) pair in the range is reachable, in particular the ones the consumers mishandle
+    kani::cover!(matches!(&r, Ok(am) if am.ty == 1 && am.length == 1));
+    kani::cover!(matches!(&r, Ok(am) if am.ty == 1 && am.length == 16));
+    kani::cover!(matches!(&r, Ok(am) if am.ty == 2 && am.length == 8));
+    kani::cover!(matches!(&r, Ok(am) if am.ty == 3 && am.length == 31));
+    kani::cover!(matches!(&r, Ok(am) if am.ty == 7 && am.length == 65536));
+    kani::cover!(matches!(&r, Ok(am) if am.ty == 4));
+    kani::cover!(r.is_err());
+}
+
+// ------------------------------------------------------------------------------------------------
+// expected_icc_len / expected_exif_len / expected_xmp_len / expected_data_len on headers whose APPn entries
+// come out of the REAL parser (two of them, parsed back to back from 5 symbolic bytes)
+// ------------------------------------------------------------------------------------------------
+#[kani::proof]
+#[kani::unwind(9)]
+fn expected_lens_total() {
+    let data: [u8; 5] = kani::any();
+    let mut bs = Bitstream::new(&data);
+    let Ok(a) = AppMarker::parse(&mut bs, ()) else { return };
+    let (aty, alen) = (a.ty, a.length as usize);
+    let two: bool = kani::any();
+    let mut b_tl = None;
+    let v = if two {
+        let Ok(b) = AppMarker::parse(&mut bs, ()) else { return };
+        b_tl = Some((b.ty, b.length as usize));
+        vec![a, b]
+    } else {
+        vec![a]
+    };
+    let tail: u32 = kani::any();
+    kani::assume(tail <= 65793 + (1 << 22) - 1); // lib.rs:215 U32(0, 1 + u(8), 257 + u(16), 65793 + u(22))
+    let h = header_with(v, Vec::new(), Vec::new(), tail);
+    // none of these may panic, whatever the parser returned (jpeg_reconstruction_status calls the first three on
+    // a header straight out of the parser, jxl-oxide/src/lib.rs:809-823; finalize calls the fourth, lib.rs:80)
+    let icc = h.expected_icc_len();
+    let exif = h.expected_exif_len();
+    let xmp = h.expected_xmp_len();
+    let dl = h.expected_data_len();
+    // values, where the header describes real segments
+    let (bty, blen) = b_tl.unwrap_or((0, 0));
+    let n_b = b_tl.is_some();
+    let icc_ok = (aty != 1 || alen >= 17) && (!n_b || bty != 1 || blen >= 17);
+    if icc_ok {
+        let e = if aty == 1 { alen - 17 } else { 0 } + if n_b && bty == 1 { blen - 17 } else { 0 };
+        assert!(icc == e, "[C17] expected_icc_len == sum over ICC chunks of (length - 17)");
+    }
+    let first_exif = if aty == 2 { Some(alen) } else if n_b && bty == 2 { Some(blen) } else { None };
+    match first_exif {
+        Some(l) if l >= 9 => assert!(exif == l - 9, "[C17] expected_exif_len == length - 9 of the first Exif marker"),
+        None => assert!(exif == 0, "[C17] no Exif marker: 0"),
+        _ => {}
+    }
+    let first_xmp = if aty == 3 { Some(alen) } else if n_b && bty == 3 { Some(blen) } else { None };
+    match first_xmp {
+        Some(l) if l >= 32 => assert!(xmp == l - 32, "[C17] expected_xmp_len == length - 32 of the first XMP marker"),
+        None => assert!(xmp == 0, "[C17] no XMP marker: 0"),
+        _ => {}
+    }
+    let e = if aty == 0 { alen } else { 0 } + if n_b && bty == 0 { blen } else { 0 } + tail as usize;
+    assert!(dl == e, "[C17] expected_data_len == verbatim APPn bytes + COM + inter-marker + tail bytes");
+    kani::cover!(two && aty == 1 && bty == 1 && icc_ok && icc > 0);
+    kani::cover!(!two && aty == 2 && exif == 65527);
+    kani::cover!(two && bty == 3 && xmp > 0);
+}
+
+// ------------------------------------------------------------------------------------------------
+// expected_data_len with COM / inter-marker / tail lengths in the ranges the header parser produces
+//   com_lengths[i] = u(16) + 1 (lib.rs:169), intermarker_lengths[i] = u(16) (lib.rs:212), tail (lib.rs:215)
+// ------------------------------------------------------------------------------------------------
+fn expected_data_len_n<const NA: usize, const NC: usize, const NM: usize>() {
+    let c: [u32; NC] = kani::any();
+    let m: [u32; NM] = kani::any();
+    let a: [u32; NA] = kani::any();
+    let aty: [u32; NA] = kani::any();
+    let tail: u32 = kani::any();
+    kani::assume(tail <= 65793 + (1 << 22) - 1);
+    let mut e = tail as usize;
+    let mut av = Vec::with_capacity(NA);
+    let mut i = 0;
+    while i < NA {
+        kani::assume(a[i] >= 1 && a[i] <= 65536 && aty[i] <= 7);
+        if aty[i] == 0 {
+            e += a[i] as usize;
+        }
+        av.push(AppMarker { ty: aty[i], length: a[i] });
+        i += 1;
+    }
+    let mut i = 0;
+    while i < NC {
+        kani::assume(c[i] >= 1 && c[i] <= 65536);
+        e += c[i] as usize;
+        i += 1;
+    }
+    let mut i = 0;
+    while i < NM {
+        kani::assume(m[i] <= 65535);
+        e += m[i] as usize;
+        i += 1;
+    }
+    let h = header_with(av, c.to_vec(), m.to_vec(), tail);
+    assert!(h.expected_data_len() == e, "[C17,C01] expected_data_len == verbatim APPn + COM + inter-marker + tail bytes, no overflow");
+    assert!(h.app_data_len() + h.com_data_len() + h.intermarker_data_len() + tail as usize == e, "[C17] the section offsets used by the reconstructor (reconstruct.rs:91-93) add up to it");
+    kani::cover!(NA == 0 || aty[0] == 0);
+    kani::cover!(NA < 2 || (aty[0] == 0 && aty[1] == 0 && e == 2 * 65536 + NC * 65536 + NM * 65535 + 65793 + (1 << 22) - 1));
+}
+
+#[kani::proof]
+#[kani::unwind(4)]
+fn expected_data_len_contract() {
+    expected_data_len_n::<2, 2, 2>();
+}
+
+#[kani::proof]
+#[kani::unwind(4)]
+fn expected_data_len_empty() {
+    expected_data_len_n::<0, 0, 0>();
+}
+
+// ------------------------------------------------------------------------------------------------
+// consumer precondition: the APPn writer treats ty > 3 as unreachable!() (reconstruct.rs:699-757)
+// ------------------------------------------------------------------------------------------------
+#[kani::proof]
+#[kani::unwind(9)]
+fn app_marker_type_known() {
+    let data: [u8; 3] = kani::any();
+    let mut bs = Bitstream::new(&data);
+    let Ok(am) = AppMarker::parse(&mut bs, ()) else { return };
+    assert!(am.ty <= 3, "[C01,C17] APPn writer (reconstruct.rs:699-757) has `_ => unreachable!()` for ty > 3: the parser must not return it");
+    kani::cover!(am.ty == 3);
+}
